@@ -13,6 +13,7 @@ search     : dynamic oracles on the implementation, independent of the model:
 from __future__ import annotations
 
 import json
+import os
 import random
 
 from harness import core
@@ -393,6 +394,7 @@ def run(ck):
         else:
             counters["rejected_by_validation"] += 1
     one_object_oracle(ck, [c[0] for c in cases if c[3]][: (120 if ck.tier == "thorough" else 25)], rng, counters)
+    counters["cli_run_space_runs"] = cli_run_space_oracle(ck)
     shard = 200
     texts = [HEADER % ";\n".join(case_text(*c) for c in cases[i:i + shard]) for i in range(0, len(cases), shard)]
     per, errs = core.mismatches("C02", texts, timeout=900)
@@ -474,6 +476,50 @@ def _inspect_then_run(cfg, values, data0=None):
     if appeared != reported - set(initial):
         return ("reported-keys-differ-from-run", "inspection of the same configuration object reported created keys %s, the run made %s appear" % (sorted(reported), sorted(appeared)))
     return None
+
+
+def cli_run_space_oracle(ck):
+    """`semantiva run` over a run space of several runs: a key supplied through --context that a node deletes (or renames
+    away) after using it.  Inspection accepts the configuration and every required key is supplied for EVERY run, so no run
+    may fail on parameter resolution: each run starts from the supplied context, not from what the run before left."""
+    import subprocess
+    import tempfile
+    import yaml
+    n = 0
+    cases = {
+        "delete-after-use": [{"processor": "FloatValueDataSource"}, {"processor": "FloatMultiplyOperation"}, {"processor": "delete:factor"},
+                             {"processor": "FloatCollectValueProbe", "context_key": "seen"}],
+        "rename-after-use": [{"processor": "FloatValueDataSource"}, {"processor": "FloatMultiplyOperation"}, {"processor": "rename:factor:old_factor"}],
+        "template-consumes": [{"processor": "FloatValueDataSource"}, {"processor": 'template:"f={factor}":label'}, {"processor": "delete:factor"},
+                              {"processor": "FloatMultiplyOperationWithDefault"}],
+    }
+    for name, nodes in cases.items():
+        d = tempfile.mkdtemp(prefix="verif_c02cli_")
+        try:
+            doc = {"extensions": ["semantiva-examples"], "pipeline": {"nodes": nodes},
+                   "run_space": {"blocks": [{"mode": "by_position", "context": {"value": [1.0, 2.0, 3.0]}}]}}
+            with open(os.path.join(d, "p.yaml"), "w") as f:
+                yaml.safe_dump(doc, f, sort_keys=False)
+            env = dict(os.environ)
+            env.update({"PYTHONPATH": core.REPO, "PYTHONHASHSEED": "0", "PYTHONDONTWRITEBYTECODE": "1"})
+            p = subprocess.run([core.PY, "-m", "semantiva.cli", "run", "p.yaml", "--context", "factor=2.0"], cwd=d, env=env,
+                               stdout=subprocess.PIPE, stderr=subprocess.PIPE, text=True, timeout=120)
+            n += 1
+            if p.returncode != 0:
+                tail = [l for l in (p.stdout + p.stderr).splitlines() if l.strip()][-2:]
+                unresolved = "Unable to resolve parameter" in (p.stdout + p.stderr)
+                if unresolved:
+                    ck.fail_input("C02:accepted-but-fails-on-flow:cli-run-space:" + name,
+                                  "`semantiva run` over 3 runs with --context factor=2.0 (the pipeline removes `factor` after using it): exit code %d, %s"
+                                  % (p.returncode, " | ".join(tail)[:300]), {"kind": "cli-run-space", "case": name, "nodes": nodes})
+                else:
+                    ck.corr_problem("cli run-space oracle: `semantiva run` failed for another reason (%s)" % name, " | ".join(tail)[:400])
+        except Exception as ex:  # noqa
+            ck.corr_problem("cli run-space oracle could not run (%s)" % name, repr(ex)[:300])
+        finally:
+            import shutil
+            shutil.rmtree(d, ignore_errors=True)
+    return n
 
 
 def one_object_oracle(ck, pipelines, rng, counters):
